@@ -32,6 +32,10 @@ fn main() {
     let args: Vec<String> = std::env::args().collect();
     let worlds = worlds::all();
     let code = match args.get(1).map(|s| s.as_str()) {
+        Some("survey-blend") => {
+            worlds::sixel::survey_blend();
+            0
+        }
         Some("list") => {
             for w in worlds.iter() {
                 println!("{} {:?}", w.name, w.properties);
